@@ -516,8 +516,22 @@ fn prop(t: &mut Tape, st: &mut Stats) -> Result<(), Failure> {
             }
         }
     }
-    if let Err(e) = keyed {
-        return Err(fail("twin", &r, format!("BTreeMap<Spanned<String>, Value> fails where String keys succeed: {e}")));
+    let keyed = match keyed {
+        Ok(k) => k,
+        Err(e) => return Err(fail("twin", &r, format!("BTreeMap<Spanned<String>, Value> fails where String keys succeed: {e}"))),
+    };
+    // a newtype struct around the spanned key: one more wrapper, same keys, same ranges
+    #[derive(serde::Deserialize, PartialEq, Eq, PartialOrd, Ord, Debug)]
+    struct NameKey(serde_spanned::Spanned<String>);
+    match toml::from_str::<BTreeMap<NameKey, toml::Value>>(text) {
+        Ok(nk) => {
+            let a: Vec<(String, Range<usize>)> = keyed.keys().map(|k| (k.get_ref().clone(), k.span())).collect();
+            let b: Vec<(String, Range<usize>)> = nk.keys().map(|k| (k.0.get_ref().clone(), k.0.span())).collect();
+            if a != b {
+                return Err(fail("serde-key-span", &r, format!("map keys wrapped in a newtype struct around Spanned<String> carry other ranges than Spanned<String> keys: {b:?} vs {a:?}")));
+            }
+        }
+        Err(e) => return Err(fail("twin", &r, format!("BTreeMap<NewType(Spanned<String>), Value> fails where Spanned<String> keys succeed: {e}"))),
     }
     if let Err(e) = nested {
         if has_spanless_table(&r.expected) && KNOWN_F10.load(std::sync::atomic::Ordering::Relaxed) {
